@@ -176,6 +176,21 @@ def originOf (S : SchemaView) : Nat → String → String → List String
 
 end SchemaView
 
+/-- The executable form of the hypothesis `ValidSchemaView` of the totality theorems
+(`Proofs/FrontendComp.lean`): what the frontend relies on about a schema that `Schema::new`
+accepted. Used by the driver's `view-valid` request and by `decide` on concrete schemas. -/
+def validSchemaViewB (S : SchemaView) : Bool :=
+  S.types.all (fun t => t.fields.all (fun f =>
+    (isBuiltinScalar f.ty.base || S.isVertexType f.ty.base) &&
+    f.name != TYPENAME &&
+    decide (f.params.map (·.name)).Nodup &&
+    (match S.originOf S.types.length t.name f.name with
+     | [a] => (S.field a f.name).isSome
+     | _ => false) &&
+    (t.name != S.queryType || S.isVertexType f.ty.base))) &&
+  !S.isVertexType TYPENAME && S.isVertexType S.queryType
+
+
 /-! ## Errors -/
 
 /-- `FrontendError` / `FilterTypeError` / `ValidationError` by variant name. -/
